@@ -723,8 +723,9 @@ impl<N, E, S: BuildHasher, Ty: EdgeType, Null: Nullable<Wrapped = E>, Ix: IndexT
         for elt in iterable {
             let (source, target, weight) = elt.into_weighted_edge();
             let (source, target) = (source.into(), target.into());
-            let nx = cmp::max(source, target);
-            while nx.index() >= self.node_count() {
+            // add nodes until both endpoints exist (ids are not compact after
+            // removals, so the node count says nothing about a given id)
+            while self.get_node_weight(source).is_none() || self.get_node_weight(target).is_none() {
                 self.add_node(N::default());
             }
             self.add_edge(source, target, weight);
